@@ -38,6 +38,7 @@ func vC06Bin[T vNum]() {
 	}
 	var d *Dense
 	var dw []T
+	var zb *Dense
 	var opts []FuncOpt
 	switch mode {
 	case "unsafe":
@@ -65,6 +66,9 @@ func vC06Bin[T vNum]() {
 		pan = vCatch(func() { res, err = vCallBin(op, api, a, s, opts...) })
 	case "ST":
 		pan = vCatch(func() { res, err = vCallBin(op, api, s, a, opts...) })
+	case "TZ": // the scalar operand given as a scalar-shaped tensor (it is an operand: it must come back unchanged)
+		zb = New(FromScalar(s))
+		pan = vCatch(func() { res, err = vCallBin(op, api, a, zb, opts...) })
 	}
 	vReach("C06.Bin")
 	n := len(aw)
@@ -73,7 +77,7 @@ func vC06Bin[T vNum]() {
 		switch form {
 		case "TT":
 			return aw[k], bw[k]
-		case "TS":
+		case "TS", "TZ":
 			return aw[k], s
 		}
 		return s, aw[k]
@@ -233,6 +237,29 @@ func vC06Bin[T vNum]() {
 		for k := range bw {
 			vAssert(vSameBits(bs[k], bw[k]), "operand-b-unchanged")
 		}
+	}
+	if form == "TZ" {
+		vC06ScalarOperand(zb, s, "scalar-tensor-operand-unchanged")
+		if vCfgInt("after") == 1 {
+			// its storage must not have been handed to a pool either: a later operation with a Go scalar leaves it alone
+			c := vNondet[T]("c")
+			a2, _ := vMkOperand[T]("a2", []int{2}, "C")
+			if _, err := vCallBin("Add", "func", a2, c); err == nil {
+				vC06ScalarOperand(zb, s, "scalar-tensor-operand-unchanged-later")
+			}
+		}
+	}
+}
+
+func vC06ScalarOperand[T vNum](z *Dense, s T, id string) {
+	vAssert(z.IsScalar(), id+"-shape")
+	if !z.IsScalar() {
+		return
+	}
+	v, ok := z.ScalarValue().(T)
+	vAssert(ok, id+"-type")
+	if ok {
+		vAssert(vSameBits(v, s), id)
 	}
 }
 
